@@ -86,6 +86,7 @@ def run(prog, chk):
     P = {
         'final-local': lambda n: n.get('k') == 'mcall' and SX.short(n.get('callee', '')) == 'isFinal',
         'final-field': lambda n: (n.get('k') == 'mcall' and SX.short(n.get('callee', '')) == 'recordFinalFieldAssignment') or (n.get('k') == 'member' and n.get('name') == 'isFinal'),
+        'final-receiver': lambda n: n.get('k') == 'mcall' and SX.short(n.get('callee', '')) == 'isThisReference',
         'visibility': lambda n: n.get('k') == 'mcall' and SX.short(n.get('callee', '')) == 'isAccessible',
         'declared': lambda n: n.get('k') == 'mcall' and SX.short(n.get('callee', '')) == 'isDeclared',
         'type-compat': lambda n: (n.get('k') in ('mcall', 'call', 'opcall') and SX.short(SX.callee(n) or SX.show(n.get('args', [{}])[0] if n.get('k') == 'opcall' else n)) in
@@ -103,6 +104,8 @@ def run(prog, chk):
         ('final-local', 'a final variable is never assigned or incremented', ['AssignmentStatement', 'AssignmentExpression', 'PostfixExpression']),
         ('final-field', 'a final field is assigned at most once, in a constructor, at top level',
          ['AssignmentStatement', 'AssignmentExpression', 'MemberAssignmentExpression', 'buildClassRegistry']),
+        ('final-receiver', 'a final field is written through `this` only (a write through another reference would be counted as initialising this object\'s field)',
+         ['MemberAssignmentExpression']),
         ('visibility', 'private/protected members are inaccessible outside their class/hierarchy by any route',
          ['MemberAccessExpression', 'MemberAssignmentExpression', 'CallExpression', 'resolveField', 'NewExpression', 'ConstructorDeclaration']),
         ('type-compat', 'a value of known type is accepted only if compatible with the declared type',
@@ -138,6 +141,25 @@ def run(prog, chk):
                 if any(n['k'] == 'mcall' and SX.short(n['callee']) == 'accept' and any(x.get('k') == 'ref' and x.get('id') in ids for x in SX.walk(n.get('obj'))) for n in SX.walk(lp['body'])):
                     ok = True
         chk.ob('R16.A', f, f.ln, ok, '%s sends every parameter through the shared parameter visitor (void / redeclaration checks)' % s, key='params-visited@' + s)
+
+    # ---- A': the abstract-class rule reads ClassInfo::isAbstract, which is inherited: it must be derived base-first ------------
+    from . import C10 as _C10
+    nabs = 0
+    for V in fns:
+        if not V.body or V.kind != 'method':
+            continue
+        acc = _C10._inherited_accumulation(V)
+        if not acc or 'bstract' not in acc:
+            continue
+        nabs += 1
+        for gfn, call in prog.callers(V):
+            ok, why = False, 'called outside a base-first walk'
+            if gfn.kind == 'lambda' and gfn.parent is not None:
+                ok, why = _C10._post_order_closure(prog, gfn.parent, gfn, call, 'validated')
+            chk.ob('R16.A', gfn, call.get('ln', gfn.ln), ok,
+                   'the abstract-class rule relies on %s, which %s derives from the base class\'s value: it must be computed for the base first (%s); otherwise '
+                   'a class that inherits an unimplemented method through an undeclared-abstract middle class is instantiable' % (acc, V.short, why), key='abstract-base-first:' + V.short)
+    chk.count('functions deriving inherited abstractness', nabs, 1)
 
     # ---- B: exact relation -----------------------------------------------------------------------
     _relation(prog, chk, named, fns)
